@@ -21,7 +21,7 @@ structure Query (C P E : Type) where
   com : C
   point : P
   eval : E
-deriving Repr
+deriving Repr, DecidableEq
 
 /-- `kzg/utils.rs: struct CommitmentData` (the label is irrelevant to the grouping). -/
 structure CommitmentData (C E : Type) where
@@ -29,7 +29,7 @@ structure CommitmentData (C E : Type) where
   setIndex : Nat
   pointIndices : List Nat
   evals : List E
-deriving Repr
+deriving Repr, DecidableEq
 
 section
 variable {C P E : Type} [DecidableEq C] [DecidableEq P]
